@@ -183,16 +183,50 @@ func checkMatchedMarked(c *Ctx, rule string) {
 		c.Unresolved(rule, "indexDiffT: the map that marks matched indexes")
 		return
 	}
-	isMark := func(nd ast.Node) bool {
-		as, ok := nd.(*ast.AssignStmt)
+	// a method of the marker's type that stores into its receiver (set.add(x))
+	storingMethod := func(call *ast.CallExpr) bool {
+		se, ok := call.Fun.(*ast.SelectorExpr)
 		if !ok {
 			return false
 		}
-		for _, l := range as.Lhs {
-			if ix, ok := ast.Unparen(l).(*ast.IndexExpr); ok {
-				if id, ok := ast.Unparen(ix.X).(*ast.Ident); ok && info.ObjectOf(id) == marker {
-					return true
+		id, ok := ast.Unparen(se.X).(*ast.Ident)
+		if !ok || info.ObjectOf(id) != marker {
+			return false
+		}
+		hf := c.FuncInfoOf(calleeOf(info, call))
+		if hf == nil || hf.Decl.Body == nil || hf.Decl.Recv == nil || len(hf.Decl.Recv.List) == 0 || len(hf.Decl.Recv.List[0].Names) == 0 {
+			return false
+		}
+		hinfo := hf.Info()
+		recv := hinfo.ObjectOf(hf.Decl.Recv.List[0].Names[0])
+		stores := false
+		ast.Inspect(hf.Decl.Body, func(k ast.Node) bool {
+			if as, ok := k.(*ast.AssignStmt); ok {
+				for _, l := range as.Lhs {
+					if ix, ok := ast.Unparen(l).(*ast.IndexExpr); ok {
+						if rid, ok := ast.Unparen(ix.X).(*ast.Ident); ok && hinfo.ObjectOf(rid) == recv {
+							stores = true
+						}
+					}
 				}
+			}
+			return true
+		})
+		return stores
+	}
+	isMark := func(nd ast.Node) bool {
+		switch x := nd.(type) {
+		case *ast.AssignStmt:
+			for _, l := range x.Lhs {
+				if ix, ok := ast.Unparen(l).(*ast.IndexExpr); ok {
+					if id, ok := ast.Unparen(ix.X).(*ast.Ident); ok && info.ObjectOf(id) == marker {
+						return true
+					}
+				}
+			}
+		case *ast.ExprStmt:
+			if call, ok := ast.Unparen(x.X).(*ast.CallExpr); ok && storingMethod(call) {
+				return true
 			}
 		}
 		return false
@@ -294,6 +328,9 @@ func checkMatchedMarked(c *Ctx, rule string) {
 	// is the marker consulted in the marking loop (other than by the marking stores), or handed to a look-up?
 	markerRead := false
 	ast.Inspect(loopBodyOf(loop), func(m ast.Node) bool {
+		if es, ok := m.(*ast.ExprStmt); ok && isMark(es) {
+			return false
+		}
 		if as, ok := m.(*ast.AssignStmt); ok && isMark(as) {
 			for _, r := range as.Rhs {
 				ast.Inspect(r, func(k ast.Node) bool {
@@ -440,10 +477,27 @@ const ruleTextApplyStops = "ApplyChanges stops at the first failing statement: i
 func checkApplyStops(c *Ctx, rule string) {
 	n := 0
 	for _, pp := range []string{pSqlx, pSqlite, pMysql, pPostgres} {
+		// the ApplyChanges functions and the package-local functions they call (the loop may live in a helper)
+		var units []*FuncInfo
 		c.AllFuncs(false, func(fi *FuncInfo) {
-			if fi.Pkg.PkgPath != pp || fi.Decl.Name.Name != "ApplyChanges" {
+			if fi.Pkg.PkgPath != pp || fi.Decl.Name.Name != "ApplyChanges" || fi.Decl.Body == nil {
 				return
 			}
+			units = append(units, fi)
+			for _, call := range callsIn(fi.Decl.Body, true) {
+				if fn := calleeOf(fi.Info(), call); fn != nil && fn.Pkg() != nil && fn.Pkg().Path() == pp {
+					if hf := c.FuncInfoOf(fn); hf != nil && hf.Decl.Body != nil && hf.Decl != fi.Decl {
+						units = append(units, hf)
+					}
+				}
+			}
+		})
+		seenUnit := map[*ast.FuncDecl]bool{}
+		for _, fi := range units {
+			if seenUnit[fi.Decl] {
+				continue
+			}
+			seenUnit[fi.Decl] = true
 			info := fi.Info()
 			f := newFlow(info, fi.Decl.Body)
 			ast.Inspect(fi.Decl.Body, func(m ast.Node) bool {
@@ -479,7 +533,7 @@ func checkApplyStops(c *Ctx, rule string) {
 				c.Check(rule, fi.Name+"|an execution error ends the loop", loop.Pos(), !bad, "%s can go on with the next planned statement after ExecContext returned an error: later statements of a multi-statement change (the DROP after a failed row copy) run on a state the plan did not foresee, and the error is lost", fi.Name)
 				return true
 			})
-		})
+		}
 	}
 	if n < 1 {
 		c.Unresolved(rule, "ApplyChanges functions that execute the plan in a loop")
@@ -878,8 +932,29 @@ func checkValidateStrict(c *Ctx, rule string) {
 			}
 			n++
 			c.funcs[fi.Name] = true
-			if why, ok := validateTolerant[fi.Name]; ok {
-				c.Check(rule, fi.Name+"|listed tolerant consumer", body.Pos(), true, "%s", why)
+			tolerantAs := fi.Name
+			if _, ok := validateTolerant[tolerantAs]; !ok {
+				// a function referenced from one listed consumer only (its PreRunE moved into a constructor) inherits the entry
+				refs := map[string]bool{}
+				c.AllFuncs(true, func(g *FuncInfo) {
+					if g.Pkg != fi.Pkg || g.Decl.Body == nil || g.Decl == fi.Decl {
+						return
+					}
+					ast.Inspect(g.Decl.Body, func(k ast.Node) bool {
+						if id, ok := k.(*ast.Ident); ok && g.Info().Uses[id] == types.Object(fi.Obj) {
+							refs[g.Name] = true
+						}
+						return true
+					})
+				})
+				if len(refs) == 1 {
+					for r := range refs {
+						tolerantAs = r
+					}
+				}
+			}
+			if why, ok := validateTolerant[tolerantAs]; ok {
+				c.Check(rule, tolerantAs+"|listed tolerant consumer", body.Pos(), true, "%s", why)
 				continue
 			}
 			f := newFlow(info, body)
@@ -1080,6 +1155,37 @@ func checkExecOrderVocab(c *Ctx, rule string) {
 		}
 		return true
 	})
+	if arg == nil {
+		// table-driven form: a {flagExecOrder, value} pair (or a keyed entry) in a literal the flags are set from
+		ast.Inspect(fi.Decl.Body, func(m ast.Node) bool {
+			cl, ok := m.(*ast.CompositeLit)
+			if !ok || len(cl.Elts) != 2 {
+				return true
+			}
+			first := cl.Elts[0]
+			if kv, ok := first.(*ast.KeyValueExpr); ok {
+				first = kv.Value
+			}
+			if id, ok := ast.Unparen(first).(*ast.Ident); ok && id.Name == "flagExecOrder" {
+				second := cl.Elts[1]
+				if kv, ok := second.(*ast.KeyValueExpr); ok {
+					second = kv.Value
+				}
+				arg = second
+			}
+			return true
+		})
+		if arg == nil {
+			ast.Inspect(fi.Decl.Body, func(m ast.Node) bool {
+				if kv, ok := m.(*ast.KeyValueExpr); ok {
+					if id, ok := ast.Unparen(kv.Key).(*ast.Ident); ok && id.Name == "flagExecOrder" {
+						arg = kv.Value
+					}
+				}
+				return true
+			})
+		}
+	}
 	if arg == nil {
 		c.Unresolved(rule, "maySetFlag(cmd, flagExecOrder, …) in setMigrateEnvFlags")
 		return
@@ -1393,11 +1499,30 @@ const ruleTextRestoreCascade = "the PostgreSQL restore functions (the closures b
 
 func checkRestoreCascade(c *Ctx, rule string) {
 	n := 0
+	// the restore constructors and the package-local functions their closures delegate to
+	var runits []*FuncInfo
+	seenU := map[*ast.FuncDecl]bool{}
 	for _, name := range []string{"SchemaRestoreFunc", "RealmRestoreFunc"} {
 		fi := c.LookupFunc(pPostgres, "Driver", name)
 		if fi == nil || fi.Decl.Body == nil {
 			continue
 		}
+		if !seenU[fi.Decl] {
+			seenU[fi.Decl] = true
+			runits = append(runits, fi)
+		}
+		for _, call := range callsIn(fi.Decl.Body, true) {
+			fn := calleeOf(fi.Info(), call)
+			if fn == nil || fn.Pkg() == nil || fn.Pkg().Path() != pPostgres || fn.Name() == "withCascade" || fn.Name() == "ApplyChanges" {
+				continue
+			}
+			if hf := c.FuncInfoOf(fn); hf != nil && hf.Decl.Body != nil && !seenU[hf.Decl] {
+				seenU[hf.Decl] = true
+				runits = append(runits, hf)
+			}
+		}
+	}
+	for _, fi := range runits {
 		info := fi.Info()
 		ord := 0
 		ast.Inspect(fi.Decl.Body, func(m ast.Node) bool {
@@ -1491,30 +1616,60 @@ func checkFKSides(c *Ctx, rule string) {
 					if lf == "" {
 						continue
 					}
-					var other string
+					// the value, with single-definition locals replaced by what they were computed from (one level)
+					rhsParts := []ast.Expr{as.Rhs[i]}
 					ast.Inspect(as.Rhs[i], func(k ast.Node) bool {
-						e, ok := k.(ast.Expr)
+						id, ok := k.(*ast.Ident)
 						if !ok {
 							return true
 						}
-						if rf, rx := side(e); rf != "" && types.ExprString(rx) != types.ExprString(lx) {
-							if rf != lf {
-								other = types.ExprString(e)
+						v, ok := info.Uses[id].(*types.Var)
+						if !ok || v.IsField() {
+							return true
+						}
+						var defs []ast.Expr
+						ast.Inspect(fi.Decl.Body, func(q ast.Node) bool {
+							if das, ok := q.(*ast.AssignStmt); ok && len(das.Lhs) == len(das.Rhs) {
+								for di, dl := range das.Lhs {
+									if did, ok := dl.(*ast.Ident); ok && info.ObjectOf(did) == types.Object(v) {
+										defs = append(defs, das.Rhs[di])
+									}
+								}
 							}
-							return false
+							return true
+						})
+						if len(defs) == 1 {
+							rhsParts = append(rhsParts, defs[0])
 						}
 						return true
 					})
-					// count only stores that read another foreign key at all
-					reads := false
-					ast.Inspect(as.Rhs[i], func(k ast.Node) bool {
-						if e, ok := k.(ast.Expr); ok {
-							if rf, rx := side(e); rf != "" && types.ExprString(rx) != types.ExprString(lx) {
-								reads = true
+					var other string
+					for _, part := range rhsParts {
+						ast.Inspect(part, func(k ast.Node) bool {
+							e, ok := k.(ast.Expr)
+							if !ok {
+								return true
 							}
-						}
-						return !reads
-					})
+							if rf, rx := side(e); rf != "" && types.ExprString(rx) != types.ExprString(lx) {
+								if rf != lf {
+									other = types.ExprString(e)
+								}
+								return false
+							}
+							return true
+						})
+					}
+					reads := false
+					for _, part := range rhsParts {
+						ast.Inspect(part, func(k ast.Node) bool {
+							if e, ok := k.(ast.Expr); ok {
+								if rf, rx := side(e); rf != "" && types.ExprString(rx) != types.ExprString(lx) {
+									reads = true
+								}
+							}
+							return !reads
+						})
+					}
 					if !reads {
 						continue
 					}
@@ -1527,8 +1682,8 @@ func checkFKSides(c *Ctx, rule string) {
 			})
 		})
 	}
-	if n < 2 {
-		c.Unresolved(rule, "stores into Columns/RefColumns of a foreign key computed from another foreign key (fewer than 2)")
+	if n < 1 {
+		c.Unresolved(rule, "stores into Columns/RefColumns of a foreign key computed from another foreign key")
 	}
 }
 
@@ -1709,7 +1864,6 @@ func checkPragmaRecognised(c *Ctx, rule string) {
 			c.Unresolved(rule, "sqltool.("+recv+").StmtDecls")
 			continue
 		}
-		info := fi.Info()
 		// the filter pattern
 		var src ast.Expr
 		for _, file := range p.Syntax {
@@ -1739,27 +1893,166 @@ func checkPragmaRecognised(c *Ctx, rule string) {
 			c.Unresolved(rule, "sqltool."+reName+": "+err.Error())
 			continue
 		}
-		// a table-driven reader: the pragma word indexes a package-level table whose keys are the words
-		ast.Inspect(fi.Decl.Body, func(m ast.Node) bool {
-			ix, ok := m.(*ast.IndexExpr)
-			if !ok {
-				return true
+		// the reader and the package-local functions it calls (the line loop may live in a helper)
+		runits := []*FuncInfo{fi}
+		for _, call := range callsIn(fi.Decl.Body, true) {
+			if fn := calleeOf(fi.Info(), call); fn != nil && fn.Pkg() != nil && fn.Pkg().Path() == pSqltool {
+				if hf := c.FuncInfoOf(fn); hf != nil && hf.Decl.Body != nil && hf.Decl != fi.Decl && hf.Decl.Name.Name != "StmtDecls" {
+					runits = append(runits, hf)
+				}
 			}
-			tid, ok := ast.Unparen(ix.X).(*ast.Ident)
-			if !ok {
+		}
+		for _, fi := range runits {
+			info := fi.Info()
+			// a table-driven reader: the pragma word indexes a package-level table whose keys are the words
+			ast.Inspect(fi.Decl.Body, func(m ast.Node) bool {
+				ix, ok := m.(*ast.IndexExpr)
+				if !ok {
+					return true
+				}
+				tid, ok := ast.Unparen(ix.X).(*ast.Ident)
+				if !ok {
+					return true
+				}
+				lit := c.pkgVarLiteral(info.ObjectOf(tid))
+				if lit == nil {
+					return true
+				}
+				// the index: a local defined from strings.TrimPrefix(line, pragma), possibly trimmed
+				pragma, trimmed := "", false
+				scan := func(e ast.Expr) {
+					ast.Inspect(e, func(k ast.Node) bool {
+						if call, ok := k.(*ast.CallExpr); ok {
+							fn := calleeOf(info, call)
+							if (funcIs(fn, "strings", "", "TrimPrefix") || funcIs(fn, "strings", "", "CutPrefix")) && len(call.Args) == 2 {
+								pragma, _ = stringConst(info, call.Args[1])
+							}
+							if funcIs(fn, "strings", "", "TrimSpace") || funcIs(fn, "strings", "", "Fields") {
+								trimmed = true
+							}
+						}
+						return true
+					})
+				}
+				scan(ix.Index)
+				if id, ok := ast.Unparen(ix.Index).(*ast.Ident); ok && pragma == "" {
+					obj := info.ObjectOf(id)
+					ast.Inspect(fi.Decl.Body, func(k ast.Node) bool {
+						if as, ok := k.(*ast.AssignStmt); ok {
+							for i, l := range as.Lhs {
+								if lid, ok := l.(*ast.Ident); ok && info.ObjectOf(lid) == obj && i < len(as.Rhs) {
+									scan(as.Rhs[i])
+								}
+							}
+						}
+						return true
+					})
+				}
+				if pragma == "" {
+					return true
+				}
+				for _, el := range lit.Elts {
+					kv, ok := el.(*ast.KeyValueExpr)
+					if !ok {
+						continue
+					}
+					w, ok := stringConst(c.infoOf(info.ObjectOf(tid)), kv.Key)
+					if !ok {
+						continue
+					}
+					n++
+					c.funcs[fi.Name] = true
+					var lost []string
+					for _, line := range []string{pragma + w + " ", pragma + w + "\t", pragma + " " + w, pragma + " " + w + "  "} {
+						rest := strings.TrimPrefix(line, pragma)
+						if re.MatchString(line) && rest != w && !trimmed {
+							lost = append(lost, line)
+						}
+					}
+					c.Check(rule, fi.Name+"|pragma "+w+" is recognised wherever the filter removes it", ix.Pos(), len(lost) == 0, "%s: the line filter %s removes the lines %q, but the transition table is indexed with the untrimmed remainder and does not recognise them as %q: the line vanishes without changing the state", fi.Name, reName, lost, w)
+				}
 				return true
+			})
+			// a reader that compares the pragma word with constants one by one (word == "Up" && state == …)
+			{
+				type wordVar struct {
+					pragma  string
+					trimmed bool
+				}
+				vars := map[types.Object]wordVar{}
+				ast.Inspect(fi.Decl.Body, func(m ast.Node) bool {
+					as, ok := m.(*ast.AssignStmt)
+					if !ok || len(as.Lhs) != len(as.Rhs) {
+						return true
+					}
+					for i, l := range as.Lhs {
+						id, ok := l.(*ast.Ident)
+						if !ok {
+							continue
+						}
+						wv := wordVar{}
+						ast.Inspect(as.Rhs[i], func(k ast.Node) bool {
+							if call, ok := k.(*ast.CallExpr); ok {
+								fn := calleeOf(info, call)
+								if funcIs(fn, "strings", "", "TrimPrefix") && len(call.Args) == 2 {
+									wv.pragma, _ = stringConst(info, call.Args[1])
+								}
+								if funcIs(fn, "strings", "", "TrimSpace") || funcIs(fn, "strings", "", "Fields") {
+									wv.trimmed = true
+								}
+							}
+							return true
+						})
+						if wv.pragma != "" {
+							vars[info.ObjectOf(id)] = wv
+						}
+					}
+					return true
+				})
+				seenWord := map[string]bool{}
+				ast.Inspect(fi.Decl.Body, func(m ast.Node) bool {
+					be, ok := m.(*ast.BinaryExpr)
+					if !ok || be.Op != token.EQL {
+						return true
+					}
+					id, ok := ast.Unparen(be.X).(*ast.Ident)
+					if !ok {
+						return true
+					}
+					wv, ok := vars[info.ObjectOf(id)]
+					if !ok {
+						return true
+					}
+					w, ok := stringConst(info, be.Y)
+					if !ok || seenWord[w] {
+						return true
+					}
+					seenWord[w] = true
+					n++
+					c.funcs[fi.Name] = true
+					var lost []string
+					for _, line := range []string{wv.pragma + w + " ", wv.pragma + w + "\t", wv.pragma + " " + w, wv.pragma + " " + w + "  "} {
+						rest := strings.TrimPrefix(line, wv.pragma)
+						if re.MatchString(line) && rest != w && !wv.trimmed {
+							lost = append(lost, line)
+						}
+					}
+					c.Check(rule, fi.Name+"|pragma "+w+" is recognised wherever the filter removes it", be.Pos(), len(lost) == 0, "%s: the line filter %s removes the lines %q, but the reader compares the untrimmed remainder with %q and does not recognise them: the line vanishes without changing the state", fi.Name, reName, lost, w)
+					return true
+				})
 			}
-			lit := c.pkgVarLiteral(info.ObjectOf(tid))
-			if lit == nil {
-				return true
-			}
-			// the index: a local defined from strings.TrimPrefix(line, pragma), possibly trimmed
-			pragma, trimmed := "", false
-			scan := func(e ast.Expr) {
-				ast.Inspect(e, func(k ast.Node) bool {
+			// the state switch: tag derived from strings.TrimPrefix(line, pragma)
+			ast.Inspect(fi.Decl.Body, func(m ast.Node) bool {
+				sw, ok := m.(*ast.SwitchStmt)
+				if !ok || sw.Tag == nil {
+					return true
+				}
+				var pragma string
+				trimmed := false
+				ast.Inspect(sw.Tag, func(k ast.Node) bool {
 					if call, ok := k.(*ast.CallExpr); ok {
 						fn := calleeOf(info, call)
-						if (funcIs(fn, "strings", "", "TrimPrefix") || funcIs(fn, "strings", "", "CutPrefix")) && len(call.Args) == 2 {
+						if funcIs(fn, "strings", "", "TrimPrefix") && len(call.Args) == 2 {
 							pragma, _ = stringConst(info, call.Args[1])
 						}
 						if funcIs(fn, "strings", "", "TrimSpace") || funcIs(fn, "strings", "", "Fields") {
@@ -1768,117 +2061,58 @@ func checkPragmaRecognised(c *Ctx, rule string) {
 					}
 					return true
 				})
-			}
-			scan(ix.Index)
-			if id, ok := ast.Unparen(ix.Index).(*ast.Ident); ok && pragma == "" {
-				obj := info.ObjectOf(id)
-				ast.Inspect(fi.Decl.Body, func(k ast.Node) bool {
-					if as, ok := k.(*ast.AssignStmt); ok {
-						for i, l := range as.Lhs {
-							if lid, ok := l.(*ast.Ident); ok && info.ObjectOf(lid) == obj && i < len(as.Rhs) {
-								scan(as.Rhs[i])
+				if pragma == "" {
+					// the tag may be a local defined from TrimPrefix
+					if id, ok := ast.Unparen(sw.Tag).(*ast.Ident); ok {
+						obj := info.ObjectOf(id)
+						ast.Inspect(fi.Decl.Body, func(k ast.Node) bool {
+							if as, ok := k.(*ast.AssignStmt); ok {
+								for i, l := range as.Lhs {
+									if lid, ok := l.(*ast.Ident); ok && info.ObjectOf(lid) == obj && i < len(as.Rhs) {
+										ast.Inspect(as.Rhs[i], func(q ast.Node) bool {
+											if call, ok := q.(*ast.CallExpr); ok {
+												fn := calleeOf(info, call)
+												if funcIs(fn, "strings", "", "TrimPrefix") && len(call.Args) == 2 {
+													pragma, _ = stringConst(info, call.Args[1])
+												}
+												if funcIs(fn, "strings", "", "TrimSpace") || funcIs(fn, "strings", "", "Fields") {
+													trimmed = true
+												}
+											}
+											return true
+										})
+									}
+								}
+							}
+							return true
+						})
+					}
+				}
+				if pragma == "" {
+					return true
+				}
+				for _, cl := range sw.Body.List {
+					for _, e := range cl.(*ast.CaseClause).List {
+						w, ok := stringConst(info, e)
+						if !ok {
+							continue
+						}
+						n++
+						c.funcs[fi.Name] = true
+						// lines the filter removes although the raw remainder differs from W
+						var lost []string
+						for _, line := range []string{pragma + w + " ", pragma + w + "\t", pragma + " " + w, pragma + " " + w + "  "} {
+							rest := strings.TrimPrefix(line, pragma)
+							if re.MatchString(line) && rest != w && !trimmed {
+								lost = append(lost, line)
 							}
 						}
-					}
-					return true
-				})
-			}
-			if pragma == "" {
-				return true
-			}
-			for _, el := range lit.Elts {
-				kv, ok := el.(*ast.KeyValueExpr)
-				if !ok {
-					continue
-				}
-				w, ok := stringConst(c.infoOf(info.ObjectOf(tid)), kv.Key)
-				if !ok {
-					continue
-				}
-				n++
-				c.funcs[fi.Name] = true
-				var lost []string
-				for _, line := range []string{pragma + w + " ", pragma + w + "\t", pragma + " " + w, pragma + " " + w + "  "} {
-					rest := strings.TrimPrefix(line, pragma)
-					if re.MatchString(line) && rest != w && !trimmed {
-						lost = append(lost, line)
-					}
-				}
-				c.Check(rule, fi.Name+"|pragma "+w+" is recognised wherever the filter removes it", ix.Pos(), len(lost) == 0, "%s: the line filter %s removes the lines %q, but the transition table is indexed with the untrimmed remainder and does not recognise them as %q: the line vanishes without changing the state", fi.Name, reName, lost, w)
-			}
-			return true
-		})
-		// the state switch: tag derived from strings.TrimPrefix(line, pragma)
-		ast.Inspect(fi.Decl.Body, func(m ast.Node) bool {
-			sw, ok := m.(*ast.SwitchStmt)
-			if !ok || sw.Tag == nil {
-				return true
-			}
-			var pragma string
-			trimmed := false
-			ast.Inspect(sw.Tag, func(k ast.Node) bool {
-				if call, ok := k.(*ast.CallExpr); ok {
-					fn := calleeOf(info, call)
-					if funcIs(fn, "strings", "", "TrimPrefix") && len(call.Args) == 2 {
-						pragma, _ = stringConst(info, call.Args[1])
-					}
-					if funcIs(fn, "strings", "", "TrimSpace") || funcIs(fn, "strings", "", "Fields") {
-						trimmed = true
+						c.Check(rule, fi.Name+"|pragma "+w+" is recognised wherever the filter removes it", sw.Pos(), len(lost) == 0, "%s: the line filter %s removes the lines %q, but the state switch compares the untrimmed remainder with %q and does not recognise them: the line vanishes without changing the state, so the statements after it are attributed to the wrong section (none is run although the file is recorded as applied, or the down section is executed)", fi.Name, reName, lost, w)
 					}
 				}
 				return true
 			})
-			if pragma == "" {
-				// the tag may be a local defined from TrimPrefix
-				if id, ok := ast.Unparen(sw.Tag).(*ast.Ident); ok {
-					obj := info.ObjectOf(id)
-					ast.Inspect(fi.Decl.Body, func(k ast.Node) bool {
-						if as, ok := k.(*ast.AssignStmt); ok {
-							for i, l := range as.Lhs {
-								if lid, ok := l.(*ast.Ident); ok && info.ObjectOf(lid) == obj && i < len(as.Rhs) {
-									ast.Inspect(as.Rhs[i], func(q ast.Node) bool {
-										if call, ok := q.(*ast.CallExpr); ok {
-											fn := calleeOf(info, call)
-											if funcIs(fn, "strings", "", "TrimPrefix") && len(call.Args) == 2 {
-												pragma, _ = stringConst(info, call.Args[1])
-											}
-											if funcIs(fn, "strings", "", "TrimSpace") || funcIs(fn, "strings", "", "Fields") {
-												trimmed = true
-											}
-										}
-										return true
-									})
-								}
-							}
-						}
-						return true
-					})
-				}
-			}
-			if pragma == "" {
-				return true
-			}
-			for _, cl := range sw.Body.List {
-				for _, e := range cl.(*ast.CaseClause).List {
-					w, ok := stringConst(info, e)
-					if !ok {
-						continue
-					}
-					n++
-					c.funcs[fi.Name] = true
-					// lines the filter removes although the raw remainder differs from W
-					var lost []string
-					for _, line := range []string{pragma + w + " ", pragma + w + "\t", pragma + " " + w, pragma + " " + w + "  "} {
-						rest := strings.TrimPrefix(line, pragma)
-						if re.MatchString(line) && rest != w && !trimmed {
-							lost = append(lost, line)
-						}
-					}
-					c.Check(rule, fi.Name+"|pragma "+w+" is recognised wherever the filter removes it", sw.Pos(), len(lost) == 0, "%s: the line filter %s removes the lines %q, but the state switch compares the untrimmed remainder with %q and does not recognise them: the line vanishes without changing the state, so the statements after it are attributed to the wrong section (none is run although the file is recorded as applied, or the down section is executed)", fi.Name, reName, lost, w)
-				}
-			}
-			return true
-		})
+		}
 	}
 	if n < 4 {
 		c.Unresolved(rule, "pragma words of the goose/dbmate state switches (fewer than 4)")
